@@ -63,7 +63,7 @@ PROPS = {
                 "against a reference association list that is compared after every operation. Non-trivial = the run updated a key "
                 "that was displaced from its home slot, rehashed up and down, and had a probe sequence wrap around slot 0; "
                 "distinct = distinct event-trace hashes.",
-        "stages": _cont(2, 6000, 600_000, 10),
+        "stages": _cont(2, 20000, 600_000, 10),
         "rare_probes": ["table.update_displaced", "table.rehash_up", "table.rehash_down", "table.probe_wrapped", "table.resize0", "map.absent_get", "map.absent_rem"],
         "assumptions": ["sequential consistency inside one thread", "reference model semantics as in DESIGN.md appendix A",
                         "self-assignment, mutation during iteration and in-place key mutation are outside the workload"],
@@ -75,7 +75,7 @@ PROPS = {
                 "exact-reverse backward iteration and red-black validity (root black, no red-red, equal black height, parent links, "
                 "node count, height <= 2*log2(n+1)) through the read-only accessor hook. Non-trivial = the run exercised at least 3 "
                 "distinct removal-repair situations (classified from the tree shape just before each rem); distinct = distinct trace hashes.",
-        "stages": _cont(3, 6000, 600_000, 10),
+        "stages": _cont(3, 20000, 600_000, 10),
         "rare_probes": ["tree.rem_root", "tree.rem_two_children", "tree.fix_red_sibling", "tree.fix_black_sib_red_parent",
                         "tree.fix_black_sib_black_parent", "tree.fix_far_nephew_red", "tree.fix_near_nephew_red", "tree.rem_black_one_child"],
         "assumptions": COMMON_ASSUME,
@@ -87,7 +87,7 @@ PROPS = {
                 "indices; after every operation len, get(i), get(i-len), iteration and mem against a reference C array; after sort "
                 "sortedness + multiset equality. Non-trivial = the run crossed >= 2 Array growths and >= 1 shrink of the backing store "
                 "and used negative indices on >= 3 operation kinds; distinct = distinct trace hashes.",
-        "stages": _cont(4, 6000, 600_000, 10),
+        "stages": _cont(4, 20000, 600_000, 10),
         "rare_probes": ["seq.array_grow", "seq.array_shrink", "seq.neg_get", "seq.neg_set", "seq.neg_pop_at", "seq.neg_push_at",
                         "seq.sort_with_duplicates", "seq.rem_duplicate", "seq.concat_cross", "seq.resize_pad", "seq.resize_reserve"],
         "assumptions": COMMON_ASSUME + ["push_at with a negative index is checked weakly (inserted once, others keep order)",
@@ -102,7 +102,7 @@ PROPS = {
                 "ownership chains deleted explicitly, collected, swept together with what they own and torn down, judged by the exactly-once "
                 "object ledger. Non-trivial = Tok run with >= 2 of {rehash, Tree two-children removal, sort, "
                 "cross-kind assign, copy}; distinct = distinct trace hashes.",
-        "stages": lambda tier: _cont(5, 6000, 600_000, 10)(tier) + [
+        "stages": lambda tier: _cont(5, 20000, 600_000, 10)(tier) + [
             # the Box clause: ownership chains through Box in the heap engine, judged by the exactly-once ledger under C05's name
             {"scen": "heap", "env": {"focus": 5, "avoid_kf": AVOID_KF_HEAP}, "runs": 2000 if tier == "quick" else 60_000, "configs": ["plain"], "first": 40_000_000, "chunk": 25},
             {"scen": "heap", "env": {"focus": 5, "avoid_kf": AVOID_KF_HEAP}, "runs": 300 if tier == "quick" else 6_000, "configs": ["asan"], "first": 50_000_000, "chunk": 25}],
@@ -116,7 +116,7 @@ PROPS = {
                 "must be eq in both directions and hash equally; swap must exchange the two model values. Non-trivial = >= 2 pairs "
                 "compared in the run; distinct = distinct trace hashes. The pure value-level clause (hash_data vs MurmurHash, scalar "
                 "corner values alone) is not claimed here.",
-        "stages": _cont(10, 6000, 600_000, 10),
+        "stages": _cont(10, 20000, 600_000, 10),
         "rare_probes": ["c10.pairs", "c10.twins", "c10.swaps", "copy", "assign", "assign.cross_kind"],
         "assumptions": COMMON_ASSUME,
     },
@@ -128,7 +128,7 @@ PROPS = {
                 "canonical dump (len, every element by get and by iteration) and the element ledger must be unchanged, and the model "
                 "must keep agreeing over the valid operations that follow. Non-trivial = >= 5 distinct invalid-call kinds injected in "
                 "the run at states of size >= 2; distinct = distinct trace hashes.",
-        "stages": _cont(12, 6000, 600_000, 10),
+        "stages": _cont(12, 20000, 600_000, 10),
         "rare_probes": ["bad.injected", "bad.get-out-of-range", "bad.push_at-out-of-range", "bad.pop-empty", "bad.rem-absent",
                         "bad.set-wrong-key-type", "bad.set-wrong-value-type", "bad.get-null-key", "bad.resize-below-len",
                         "bad.resize-tree-nonzero", "bad.resize-tuple-grow", "bad.unimplemented-class"],
@@ -141,7 +141,7 @@ PROPS = {
                 "operation c_str/len/cmp/eq/hash/mem against a libc-maintained reference buffer and the NUL must lie inside the block "
                 "(arena ledger; ASan red zones). Non-trivial = >= 1 rem in the middle and >= 1 grow after a shrink; distinct = distinct "
                 "trace hashes.",
-        "stages": _cont(16, 8000, 700_000, 10),
+        "stages": _cont(16, 24000, 700_000, 10),
         "rare_probes": ["str.rem_middle", "str.rem_absent", "str.grow_after_shrink", "str.shrink", "str.reserve", "str.print_to"],
         "assumptions": COMMON_ASSUME,
     },
@@ -209,8 +209,8 @@ PROPS = {
                 "child process that must exit with failure and name the exception on stderr. Non-trivial = the tree contains an inner handled "
                 "exception followed by normal completion of an enclosing body, or a throw from a handler; distinct = distinct trace hashes.",
         "stages": lambda tier: [
-            {"scen": "exc", "env": {}, "runs": 12000 if tier == "quick" else 2_000_000, "configs": ["plain"], "timeout": 6},
-            {"scen": "exc", "env": {}, "runs": 2000 if tier == "quick" else 200_000, "configs": ["asan"], "first": 10_000_000, "timeout": 6},
+            {"scen": "exc", "env": {}, "runs": 40000 if tier == "quick" else 2_000_000, "configs": ["plain"], "timeout": 6},
+            {"scen": "exc", "env": {}, "runs": 4000 if tier == "quick" else 200_000, "configs": ["asan"], "first": 10_000_000, "timeout": 6},
         ],
         "rare_probes": ["exc.outer_completes_after_inner_handled", "exc.throw_in_handler", "exc.lexical_nesting", "exc.lexical_nesting3",
                         "exc.throw_from_library", "exc.uncaught_programs", "exc.thread_programs"],
@@ -228,8 +228,8 @@ PROPS = {
                 "raise IOError only, a stream is never closed twice nor used after its fclose, and a File whose fclose failed counts as closed. "
                 "Non-trivial = >= 1 seek, >= 1 reopen and >= 1 operation after close in the run; distinct = distinct trace hashes.",
         "stages": lambda tier: [
-            {"scen": "files", "env": {"faults": 0}, "runs": 5000 if tier == "quick" else 800_000, "configs": ["plain"]},
-            {"scen": "files", "env": {"faults": 1}, "runs": 5000 if tier == "quick" else 800_000, "configs": ["plain"], "first": 5_000_000},
+            {"scen": "files", "env": {"faults": 0}, "runs": 15000 if tier == "quick" else 800_000, "configs": ["plain"]},
+            {"scen": "files", "env": {"faults": 1}, "runs": 15000 if tier == "quick" else 800_000, "configs": ["plain"], "first": 5_000_000},
             {"scen": "files", "env": {"faults": 0}, "runs": 800 if tier == "quick" else 100_000, "configs": ["asan"], "first": 10_000_000},
             {"scen": "files", "env": {"faults": 1}, "runs": 800 if tier == "quick" else 100_000, "configs": ["asan"], "first": 15_000_000},
         ],
